@@ -529,10 +529,17 @@ class BF:
             return None
         return None
 
+    def assume(self, site, facts):
+        """Extra facts (a, op, b) known to hold at `site` from a rule the caller has established separately
+        (e.g. the postcondition of a validating call that dominates the site)."""
+        self._assumed = getattr(self, "_assumed", {})
+        self._assumed.setdefault(site, []).extend(facts)
+        self._guards_memo.pop(site, None)
+
     def dominating_facts(self, site):
         if site in self._guards_memo:
             return self._guards_memo[site]
-        out = []
+        out = [f_ + ((-1, "post"),) for f_ in getattr(self, "_assumed", {}).get(site, [])]
         for (bb, lab) in P.guards_of(self.fn, site):
             for fact in self.edge_facts(bb, lab):
                 if self.fact_valid((bb, lab), site, [fact[0], fact[2]]):
